@@ -107,6 +107,7 @@ def tdefectsOfAtom : String → Option TDefects
   | "safefix" => some .safeFix
   | "safefix2" => some .safeFix2
   | "safefix3" => some .safeFix3
+  | "safefix4" => some .safeFix4
   | _ => none
 
 def expectOfAtom : String → Option Expect
@@ -128,7 +129,7 @@ def locToSexp (l : Loc) : List Sexp := [Sexp.nat l.line, Sexp.nat l.col]
 /-- `(c03-check <asis|aswas|repaired> <env> <strict> <expect> <node>)` -/
 def handleCheck : List Sexp → Sexp
   | [.atom "c03-check", .atom d, e, strict, .atom ex, n] =>
-    match defectsOfAtom (if d == "safefix" || d == "safefix2" || d == "safefix3" then "asis" else d), tdefectsOfAtom d, envOfSexp e, strict.asBool,
+    match defectsOfAtom (if d == "safefix" || d == "safefix2" || d == "safefix3" || d == "safefix4" then "asis" else d), tdefectsOfAtom d, envOfSexp e, strict.asBool,
         expectOfAtom ex, Node.ofSexp n with
     | some (dn, _), some dt, some e, some strict, some ex, some n =>
       match check (cfgOfEnv dn dt e strict ex) n with
